@@ -2925,7 +2925,8 @@ def c12_programs(rng, tier) -> List[Item]:
     items = corpus_items("C12")
     items += c12_domain_items(rng, sizes(tier, 40, 300))
     items += unmatched_switch_items(rng, sizes(tier, 44, 220))
-    items += exception_class_items(rng, sizes(tier, 80, 800))
+    import pylib as _pylib
+    items += exception_class_items(rng, len(_pylib.EXC) * len(EXC_POSITIONS))     # the full cross product, in both tiers
     items += custom_node_items(rng, sizes(tier, 60, 240))
     cfg = Cfg(raising=True)
     items += gen_items(rng, cfg, sizes(tier, 350, 4000), hist_failures)
@@ -2979,7 +2980,12 @@ def c12_oracle(prog, meta, impl, model):
                 if not is_err(a) or a["r"][1][-1][0] != meta["pred_cls"]:
                     out.append(("an exception raised by user code (a domain predicate) did not surface with its cause", i,
                                 {"options": o, "raised": meta["pred_cls"], "got": a.get("r")}))
-        # a failed evaluation stores nothing: every later evaluation equals its cache-off twin
+        # a failed evaluation stores nothing: every later evaluation equals its cache-off twin.  (The twin comparison is
+        # stronger than C12's claim — it also sees values that a SUCCESSFUL evaluation stored under too small a key,
+        # which is C01's subject: programs with the syntactic trigger of one of C01's known findings (F18 F19 F22) are
+        # judged by the direct no-store oracle above only.)
+        if c01_classify(prog, meta, ""):
+            continue
         if not same_value_or_both_fail(impl[i], impl[j]):
             out.append(("after earlier evaluations (some failed) an evaluation differs from the same one with caching off", i,
                         {"options": prog["ops"][i]["o"], "cached": impl[i].get("r"), "uncached": impl[j].get("r")}))
